@@ -335,3 +335,99 @@ func trimStack(stack string) string {
 	}
 	return strings.Join(keep, " | ")
 }
+
+// ---------------------------------------------------------------------------------------------
+// protobuf wire surgery: remove one field (at any nesting level) — the wire form of "field absent"
+
+type pbSpan struct {
+	start, end int // whole field incl. tag
+	wt         int
+	ps, pe     int // payload of a length-delimited field
+}
+
+func pbReadVarint(b []byte, i int) (uint64, int, bool) {
+	var v uint64
+	for s := uint(0); s < 64; s += 7 {
+		if i >= len(b) {
+			return 0, 0, false
+		}
+		c := b[i]
+		i++
+		v |= uint64(c&0x7f) << s
+		if c < 0x80 {
+			return v, i, true
+		}
+	}
+	return 0, 0, false
+}
+
+func pbSpans(b []byte) ([]pbSpan, bool) {
+	var out []pbSpan
+	i := 0
+	for i < len(b) {
+		st := i
+		tag, j, ok := pbReadVarint(b, i)
+		if !ok || tag>>3 == 0 {
+			return nil, false
+		}
+		sp := pbSpan{start: st, wt: int(tag & 7)}
+		switch sp.wt {
+		case 0:
+			_, j2, ok := pbReadVarint(b, j)
+			if !ok {
+				return nil, false
+			}
+			sp.end = j2
+		case 1:
+			sp.end = j + 8
+		case 5:
+			sp.end = j + 4
+		case 2:
+			l, j2, ok := pbReadVarint(b, j)
+			if !ok || l > uint64(len(b)) || j2+int(l) > len(b) {
+				return nil, false
+			}
+			sp.ps, sp.pe, sp.end = j2, j2+int(l), j2+int(l)
+		default:
+			return nil, false
+		}
+		if sp.end > len(b) {
+			return nil, false
+		}
+		out = append(out, sp)
+		i = sp.end
+	}
+	return out, true
+}
+
+func pbEncVarint(n uint64) []byte {
+	var out []byte
+	for n >= 0x80 {
+		out = append(out, byte(n)|0x80)
+		n >>= 7
+	}
+	return append(out, byte(n))
+}
+
+// pbDropField removes one field of the message (possibly inside nested messages) and repairs the enclosing lengths.
+func pbDropField(r *kit.Rng, b []byte, depth int) ([]byte, string, bool) {
+	spans, ok := pbSpans(b)
+	if !ok || len(spans) == 0 {
+		return nil, "", false
+	}
+	sp := spans[r.Intn(len(spans))]
+	tag, _, _ := pbReadVarint(b, sp.start)
+	if sp.wt == 2 && sp.pe > sp.ps && depth < 5 && r.Chance(3, 5) {
+		if inner, where, ok := pbDropField(r, b[sp.ps:sp.pe], depth+1); ok {
+			out := append([]byte(nil), b[:sp.start]...)
+			out = append(out, pbEncVarint(tag)...)
+			out = append(out, pbEncVarint(uint64(len(inner)))...)
+			out = append(out, inner...)
+			out = append(out, b[sp.end:]...)
+			return out, fmt.Sprintf("%d>%s", tag>>3, where), true
+		}
+	}
+	out := append([]byte(nil), b[:sp.start]...)
+	out = append(out, b[sp.end:]...)
+	return out, fmt.Sprintf("%d", tag>>3), true
+}
